@@ -237,5 +237,5 @@ def tasks(ctx):
     t = []
     for sh in range(NSHARDS):
         t.append((task_matrix, dict(shard=sh)))
-        t.append((task_random, dict(shard=sh, n=ctx.pick(60, 1300))))
+        t.append((task_random, dict(shard=sh, n=ctx.pick(200, 1300))))
     return t
